@@ -43,7 +43,7 @@ def run(tier, seed):
     res = common.Result("C09", tier, seed)
     run_r("C09", tier, seed, scenarios(tier), [acc_C09], 2 if tier == "quick" else 3, on_exc, WIT, RULE, res=res)
     x = {k: v for k, v in cross_family(tier).items() if not k.startswith("x:c09:")}
-    run_r("C09", tier, seed, x, [acc_C09], 1 if tier == "quick" else 2, on_exc, [], RULE, res=res, label="cross_family", split=0)
+    run_r("C09", tier, seed, x, [acc_C09], 1, on_exc, [], RULE, res=res, label="cross_family", split=0)
     return res
 
 
